@@ -40,8 +40,8 @@ type Program struct {
 	UnitOfFn  map[*types.Func]*UnitInfo
 	Contracts *ContractSet
 	// capture analysis
-	Mutable   map[*types.Var]bool          // captured and re-assigned: treated as a cell with unknown value across calls
-	LateBound map[*types.Var]*ast.FuncLit  // var x T; x = <value> exactly once: literal if a FuncLit
+	Mutable   map[*types.Var]bool         // captured and re-assigned: treated as a cell with unknown value across calls
+	LateBound map[*types.Var]*ast.FuncLit // var x T; x = <value> exactly once: literal if a FuncLit
 	LateAny   map[*types.Var]bool
 	LitCtx    map[*ast.FuncLit]types.Type
 	InitBind  map[*types.Var]ast.Expr // variable defined exactly once (var x = e / x := e) and never re-assigned: its initialiser
@@ -64,7 +64,7 @@ func loadProgram(repo string) (*Program, error) {
 	p := &Program{Fset: fset, Pkgs: map[string]*packages.Package{}, Units: map[string]*UnitInfo{},
 		UnitOfLit: map[*ast.FuncLit]*UnitInfo{}, UnitOfFn: map[*types.Func]*UnitInfo{},
 		Mutable: map[*types.Var]bool{}, LateBound: map[*types.Var]*ast.FuncLit{}, LateAny: map[*types.Var]bool{},
-		LitCtx:    map[*ast.FuncLit]types.Type{}, InitBind: map[*types.Var]ast.Expr{},
+		LitCtx: map[*ast.FuncLit]types.Type{}, InitBind: map[*types.Var]ast.Expr{},
 		Contracts: &ContractSet{Units: map[string]*UnitSpec{}, Models: map[string]*UnitSpec{}}}
 	for _, pk := range pkgs {
 		if len(pk.Errors) > 0 {
@@ -434,7 +434,6 @@ func (p *Program) pos(n ast.Node) string {
 	ps := p.Fset.Position(n.Pos())
 	return fmt.Sprintf("%s:%d", filepath.Base(ps.Filename), ps.Line)
 }
-
 
 // initBindings records, for local variables that are defined once with an
 // initialiser and never assigned again, that initialiser (function literals and
